@@ -214,9 +214,11 @@ structure Clean (busy : List Nat) (s : PState) : Prop where
   nodup : (ports s.sites).Nodup
   notBusy : ∀ p ∈ ports s.sites, busy.contains p = false
   idle : s.running = false → s.sites = []
+  /-- nothing has altered the directive table -/
+  dirs : s.dirs = 0
 
 theorem clean_init (busy : List Nat) : Clean busy PState.init :=
-  ⟨fun _ => by simp [PState.init, ports], by simp [PState.init, ports], by simp [PState.init, ports], fun _ => rfl⟩
+  ⟨fun _ => by simp [PState.init, ports], by simp [PState.init, ports], by simp [PState.init, ports], fun _ => rfl, rfl⟩
 
 /-- one server per listen address -/
 def WF : Op → Prop
@@ -231,11 +233,11 @@ theorem start_ok {busy : List Nat} {s : PState} {c : Cfg} (hs : Clean busy s) (h
   unfold start at h ⊢
   by_cases h1 : (setup c s.hooks false).1 = true
   · by_cases h2 : (listenLoop busy [] s.fds [] c.ports).1 = true
-    · have e : start busy s c = (({ running := true, sites := c.sites, fds := (listenLoop busy [] s.fds [] c.ports).2, hooks := (setup c s.hooks false).2 } : PState), Res.ok) := by
+    · have e : start busy s c = (({ s with running := true, sites := c.sites, fds := (listenLoop busy [] s.fds [] c.ports).2, hooks := (setup c s.hooks false).2 } : PState), Res.ok) := by
         simp [start, h1, h2]
       change (start busy s c).1.running = true ∧ (start busy s c).1.sites = c.sites ∧ (start busy s c).1.hooks = s.hooks + c.hooks ∧ Clean busy (start busy s c).1
       rw [e]
-      refine ⟨rfl, rfl, setup_ok_hooks h1, ?_, hw, ?_, fun h => by simp at h⟩
+      refine ⟨rfl, rfl, setup_ok_hooks h1, ?_, hw, ?_, fun h => by simp at h, hs.dirs⟩
       · intro p
         show (listenLoop busy [] s.fds [] c.ports).2 p = _
         rw [listenLoop_ok_apply busy [] c.ports [] s.fds h2 p, hs.fds p, hs.idle hr, nodup_count hw p]
@@ -256,11 +258,11 @@ theorem reload_ok {busy : List Nat} {s : PState} {c : Cfg} (hs : Clean busy s)
   unfold reload at h ⊢
   by_cases h1 : (setup c 0 false).1 = true
   · by_cases h2 : (listenLoop busy (s.sites.map (·.port)) s.fds [] c.ports).1 = true
-    · have e : reload busy s c = (({ running := true, sites := c.sites, fds := closeAll (listenLoop busy (s.sites.map (·.port)) s.fds [] c.ports).2 (s.sites.map (·.port)), hooks := (setup c 0 false).2 } : PState), Res.ok) := by
+    · have e : reload busy s c = (({ s with running := true, sites := c.sites, fds := closeAll (listenLoop busy (s.sites.map (·.port)) s.fds [] c.ports).2 (s.sites.map (·.port)), hooks := (setup c 0 false).2 } : PState), Res.ok) := by
         simp [reload, h1, h2]
       change (reload busy s c).1.running = true ∧ (reload busy s c).1.sites = c.sites ∧ (reload busy s c).1.hooks = c.hooks ∧ Clean busy (reload busy s c).1
       rw [e]
-      refine ⟨rfl, rfl, by simpa using setup_ok_hooks h1, ?_, hw, ?_, fun h => by simp at h⟩
+      refine ⟨rfl, rfl, by simpa using setup_ok_hooks h1, ?_, hw, ?_, fun h => by simp at h, hs.dirs⟩
       · intro p
         show closeAll (listenLoop busy (s.sites.map (·.port)) s.fds [] c.ports).2 (s.sites.map (·.port)) p = _
         rw [closeAll_apply, listenLoop_ok_apply busy _ c.ports [] s.fds h2 p, hs.fds p, nodup_count hw p]
@@ -292,9 +294,9 @@ theorem clean_step {busy : List Nat} {s : PState} (hs : Clean busy s) (op : Op) 
         exact (start_ok hs hrun hr hw).2.2.2
       · simp only [step, hrun, if_true] at hr ⊢
         exact (reload_ok hs hr hw).2.2.2
-    | validate c => exact ⟨hs.fds, hs.nodup, hs.notBusy, hs.idle⟩
+    | validate c => exact ⟨hs.fds, hs.nodup, hs.notBusy, hs.idle, hs.dirs⟩
     | stop =>
-      refine ⟨?_, by simp [step, ports], by simp [step, ports], fun _ => rfl⟩
+      refine ⟨?_, by simp [step, ports], by simp [step, ports], fun _ => rfl, hs.dirs⟩
       intro p
       show closeAll s.fds (s.sites.map (·.port)) p = _
       rw [closeAll_apply, hs.fds p]
@@ -406,6 +408,7 @@ theorem setup_validates (c : Cfg) (hooks : Nat) : (setup c hooks true).1 = valid
 theorem stepLaw_step {busy : List Nat} {s : PState} (hs : Clean busy s) (op : Op) (hw : WF op) :
     stepLaw busy (observe s) op (some (step busy s op).2) (observe (step busy s op).1) = none := by
   have hc' := clean_step hs op hw
+  have hdv : (observe (step busy s op).1).dv = 0 := hc'.dirs
   cases op with
   | load c =>
     by_cases hv : validFor busy c = true
@@ -417,20 +420,23 @@ theorem stepLaw_step {busy : List Nat} {s : PState} (hs : Clean busy s) (op : Op
         · simp only [step, hrun, if_true] at hok ⊢
           exact (reload_ok hs hok hw).2.1
       obtain ⟨h1, h2, h3, h4⟩ := observe_loaded hc' hsites
-      simp [stepLaw, hv, hok, h1, h2, h3, h4]
+      simp [stepLaw, hdv, hv, hok, h1, h2, h3, h4]
     · have hv' : validFor busy c = false := by simpa using hv
       have herr := load_invalid_err hs hv'
       have hid := step_err_identity herr
-      simp [stepLaw, hv', herr, hid]
+      rw [hid] at hdv
+      simp [stepLaw, hdv, hv', herr, hid]
   | validate c =>
     have hsame : ∀ p, probe (step busy s (.validate c)).1 p = probe s p := by
       intro p; simp [step, probe]
     by_cases h1 : (setup c s.hooks true).1 = true
     · have hv : validates c = true := by rw [← setup_validates c s.hooks]; exact h1
-      simp [stepLaw, step, h1, hv, observe, probe]
+      have hdv' : s.dirs = 0 := hs.dirs
+      simp [stepLaw, step, h1, hv, observe, probe, hdv']
     · have h1' : (setup c s.hooks true).1 = false := by simpa using h1
       have hv : validates c = false := by rw [← setup_validates c s.hooks]; exact h1'
-      simp [stepLaw, step, h1', hv, observe, probe, setup_fail_hooks h1']
+      have hdv' : s.dirs = 0 := hs.dirs
+      simp [stepLaw, step, h1', hv, observe, probe, setup_fail_hooks h1', hdv']
   | stop =>
     have hsites : (step busy s .stop).1.sites = [] := by simp [step]
     have hf : ∀ p, (step busy s .stop).1.fds p = 0 := by
@@ -439,7 +445,8 @@ theorem stepLaw_step {busy : List Nat} {s : PState} (hs : Clean busy s) (op : Op
       intro p; rw [probe_clean hc', hsites]; simp
     have hh : (step busy s .stop).1.hooks = s.hooks := by simp [step]
     have hr : (step busy s .stop).2 = .ok := by simp [step]
-    simp only [stepLaw, hr, observe, hf, hp, hh]
+    have hdv' : (step busy s .stop).1.dirs = 0 := hc'.dirs
+    simp only [stepLaw, hr, observe, hf, hp, hh, hdv']
     simp
 
 theorem check_runFrom (busy : List Nat) : ∀ (ops : List Op) (s : PState) (k : Nat), Clean busy s →
